@@ -429,6 +429,19 @@ class Check:
             if os.path.exists(src):
                 self.thm_names = re.findall(r'^\s*(?:Theorem|Lemma|Corollary|Example)\s+(\w+)', open(src).read(), re.M)
 
+    def coqchk(self):
+        """thorough tier: independent re-check of the compiled property file and everything it depends on"""
+        if self.proof_broken:
+            return
+        t = time.time()
+        try:
+            with _Lock():
+                out = sh('timeout 3000 coqchk -silent -o -Q . OW OW.Properties.%s 2>&1' % self.pid, cwd=COQ, timeout=3100)
+            ax = out.split('* Axioms:')[1].split('* Constants')[0].strip() if '* Axioms:' in out else '?'
+            self.cov['coqchk'] = {'ok': True, 'axioms': ' '.join(ax.split())[:600], 'wall_s': round(time.time() - t, 1)}
+        except BuildError as e:
+            self.proof_broken = ('coqchk OW.Properties.%s' % self.pid, e.output[-3000:])
+
     # -- bookkeeping
     def count(self, case_key, nontrivial=True):
         self.cov['evaluations'] += 1
